@@ -77,6 +77,9 @@ type Script struct {
 	EWD  bool   `json:"ewd"`
 	Term string `json:"term"`          // eof | failOnce | failSticky
 	Err  string `json:"err,omitempty"` // palette entry of ErrKinds the source fails with ("" = custom)
+	// ResumeData: what a failOnce source goes on delivering after its (transient) failure, before EOF.
+	// The model never reads past a failure (the code must stop there), so it is not sent to the driver.
+	ResumeData []byte `json:"-"`
 }
 
 // Fails: the script ends in a genuine failure (not EOF, not an EOF-class error).
@@ -105,11 +108,12 @@ func (s Script) Line(key string) string {
 
 // ScriptReader is the io.Reader of a Script.
 type ScriptReader struct {
-	data []byte
-	caps []int
-	ewd  bool
-	term string
-	err  error
+	data   []byte
+	caps   []int
+	ewd    bool
+	term   string
+	err    error
+	resume []byte
 	// Reads counts calls (monitor: bounded number of reads).
 	Reads int
 	// Failed is set once the scripted failure has been returned to the caller.
@@ -121,7 +125,11 @@ func (s Script) Reader() *ScriptReader {
 	if t == "" {
 		t = "eof"
 	}
-	return &ScriptReader{data: append([]byte(nil), s.Data...), caps: append([]int(nil), s.Caps...), ewd: s.EWD, term: t, err: SourceErr(s.Err)}
+	resume := append([]byte(nil), s.ResumeData...)
+	if IsEOFClass(s.Err) {
+		resume = nil // an end-of-stream signal is final: a source that delivers data after EOF is outside io.Reader's contract
+	}
+	return &ScriptReader{data: append([]byte(nil), s.Data...), caps: append([]int(nil), s.Caps...), ewd: s.EWD, term: t, err: SourceErr(s.Err), resume: resume}
 }
 
 func (r *ScriptReader) deliver() error {
@@ -129,6 +137,7 @@ func (r *ScriptReader) deliver() error {
 	case "failOnce":
 		r.term = "eof"
 		r.Failed = true
+		r.data, r.resume = r.resume, nil // a transient failure: the source goes on afterwards
 		return r.err
 	case "failSticky":
 		r.Failed = true
